@@ -43,6 +43,8 @@ pub struct Script {
     pub gen_alloc_size: u64,
     pub call_ops: Vec<(u8, u64)>,
     pub call_thr_scale: bool,
+    /// Scale sizes by 1 + (per-thread call ordinal % this) so that samples differ in their figures (0 = off).
+    pub call_var: u64,
     pub call_free: bool,
     pub drop_alloc_n: u64,
     pub drop_alloc_size: u64,
@@ -79,6 +81,7 @@ impl Script {
             gen_alloc_size: c.u64("gasz", 16),
             call_ops: Vec::new(),
             call_thr_scale: c.u64("cathr", 0) != 0,
+            call_var: c.u64("cavar", 0),
             call_free: c.u64("cafree", 1) != 0,
             drop_alloc_n: c.u64("dan", 0),
             drop_alloc_size: c.u64("dasz", 16),
@@ -255,12 +258,15 @@ fn churn(n: u64, size: u64) {
 }
 
 /// Executes the scripted allocator traffic of one call.
-fn call_allocs() {
+fn call_allocs(ord: u64) {
     let s = script();
     if s.call_ops.is_empty() {
         return;
     }
-    let scale = if s.call_thr_scale { evlog::kidx() as u64 + 1 } else { 1 };
+    let mut scale = if s.call_thr_scale { evlog::kidx() as u64 + 1 } else { 1 };
+    if s.call_var > 0 {
+        scale *= 1 + ord % s.call_var;
+    }
     // Fixed-size stack of live blocks: (ptr, size).
     let mut stack: [(*mut u8, usize); 16] = [(std::ptr::null_mut(), 0); 16];
     let mut top = 0usize;
@@ -549,7 +555,7 @@ fn call_prologue(input_id: u64) {
     let ord = next_ord(PH_CALL);
     maybe_panic(PH_CALL, ord);
     skew(PH_CALL);
-    call_allocs();
+    call_allocs(ord);
     let s = script();
     clock::charge(s.call_cost(ord, evlog::kidx() as u64));
 }
